@@ -13,9 +13,9 @@ package props
 //             halves around the signal); the request in flight on a non-transferable (HTTP) connection completes.
 
 import (
-	"context"
 	"bufio"
 	"bytes"
+	"context"
 	"fmt"
 	"io"
 	"net"
